@@ -127,6 +127,11 @@ def run(ctx):
         if s.get('mode') == 'restable' and s.get('input') is not None and s['kind'] == 'ok':
             extra.append({'kind': 'aux', 'ref': s, 'what': 'chunked', 'native_case': {'api': 'zinc_decode_chunked', 'in': s['input'], 'chunk': 1 + (len(extra) % 3), 'intr': 2 + (len(extra) % 2)}})
     sym.native_check(ctx, S)
+    # the native build's own decode -> encode -> decode of every accepted witness (what a violation is confirmed against)
+    for s in S:
+        n_ = s.get('native')
+        if s.get('mode') == 'restable' and isinstance(n_, dict) and 'ok' in n_:
+            extra.append({'kind': 'aux', 'ref': s, 'what': 'native_rt', 'native_case': {'api': 'zinc_roundtrip', 'v': norm_native(n_['ok'])}})
     sym.native_check(ctx, extra)
     for e in extra: e['ref'].setdefault('aux', {})[e['what']] = e.get('native')
     ctx.cov['path_kinds'] = dict(collections.Counter(s['kind'] for s in S))
@@ -182,9 +187,12 @@ def run(ctx):
         v = s.get('viol')
         if v:
             t2 = aux.get('text2')
+            nrt = aux.get('native_rt') or {}
+            if nrt.get('text') is not None and s.get('text2') is not None and nrt['text'] != s['text2']:
+                mism += 1; print('MODEL-MISMATCH template=%s input=%r: re-encoded text mirsym %r native %r' % (s['template'], bytes.fromhex(s['input']), bytes.fromhex(s['text2']), bytes.fromhex(nrt['text']))); continue
             confirmed = True
-            if v == 'reencoded-value-differs': confirmed = t2 is not None and 'ok' in t2 and 'ok' in n and norm_native(t2['ok']) != norm_native(n['ok'])
-            if v == 'reencoded-text-rejected': confirmed = t2 is not None and 'err' in t2
+            if v == 'reencoded-value-differs': confirmed = nrt.get('same') is False and t2 is not None and 'ok' in t2 and 'ok' in n and norm_native(t2['ok']) != norm_native(n['ok'])
+            if v == 'reencoded-text-rejected': confirmed = 'err' in nrt and t2 is not None and 'err' in t2
             if not confirmed:
                 mism += 1; print('MODEL-MISMATCH template=%s input=%r: mirsym says %s, native second decode %s' % (s['template'], bytes.fromhex(s['input']), v, str(t2)[:200])); continue
             where = ''
